@@ -101,16 +101,18 @@ def model(table, lists, cfg, items):
         msgs = set()
         for a in awarded:
             msgs.add(l['msg'] if (a and l['msg']) else '')
-        results.append((l['credit'] * frac, msgs))
+        # sums of dyadic credits are exact in any order: only then is an equal total an equal float in the library too
+        dyadic = all(float(x * 8).is_integer() for row in C for x in row)
+        results.append((l['credit'] * frac, msgs, dyadic))
     best = max(r[0] for r in results)
     near = [r for r in results if abs(r[0] - best) <= 1e-9]
-    if all(r[0] == best for r in near):
+    if all(r[0] == best for r in near) and (len(near) == 1 or all(r[2] for r in near)):
         # an exact tie: the longest message among the best-scoring alternatives is reported (R5)
         floor = max(min(len(m) for m in r[1]) for r in near)
         acceptable = set(m for r in near for m in r[1] if len(m) >= floor)
     else:
-        # grades that differ only by rounding (e.g. 2.1/3 vs 0.7): which one is the maximum is decided by the
-        # last bit, so the message of any of them may be reported
+        # grades that differ only by rounding (2.1/3 vs 0.7, or 1+1+1/3 vs 1/3+1+1 summed in another order): which one
+        # is the maximum is decided by the last bit, so the message of any of them may be reported
         acceptable = set(m for r in near for m in r[1])
     return ('grade', best, acceptable)
 
